@@ -36,7 +36,7 @@ def atom_line(name, sfac, sof):
 
 
 def occ_target(name, lit, doc, params):
-    @target('C09', name, params, doc=doc, calls=['round8'], expect=EVENTS)
+    @target('C09', name, params, doc=doc, calls=['round8'], expect=EVENTS, floor_events=True)
     def f(t):
         t.literal(lit, 'sof')
         return list(read(t, [atom_line('C1', 1, lit)]).atoms)[0].occupancy
@@ -53,7 +53,7 @@ occ_target('occM0', '0.25', 'Atom.occupancy for a code with m = 0 (sample 0.25):
 occ_target('occMm1', '-10.5', 'Atom.occupancy for a code with m = -1 (sample -10.5)', ['sof'])
 
 
-@target('C09', 'sumExactCCO', ['s1', 's2', 's3', 'fv2', 'fv3'], result_len=3, calls=['round8'], expect=EVENTS,
+@target('C09', 'sumExactCCO', ['s1', 's2', 's3', 'fv2', 'fv3'], result_len=3, calls=['round8'], expect=EVENTS, floor_events=True,
         doc='sum_formula_exact_as_dict() values for SFAC C H O and atoms C1 (code s1, m = 2), C2 (code s2, m = -2), O1 (code s3, m = 3)')
 def sum_exact(t):
     t.literal('20.6111', 's1')
